@@ -17,7 +17,7 @@ EXPLANATION = (
     "setter/getter/length are exact. C02.CONSUME: on every path reaching the consumer the buffer was truncated by exactly the end of the "
     "parsed prefix (same term), once, before the call, with no modification in between. C02.DISCARD: every other truncation cuts at the "
     "earliest known tag found, else at the last '<', else discards everything only when neither exists; one character is dropped only "
-    "under the enabled-threshold guard. C02.TAGS: the known-tag list is computed from the parser's registry."
+    "under the enabled-threshold guard. C02.TAGS: the known-tag list is computed from the parser's registry. C02.AUX: the scan depends on the buffer text alone; any cached scan attribute must be re-initialised after every truncation on every path (a stale resume offset makes delivery depend on where the stream was cut)."
 )
 NOT_DECIDED = "that the 'parse every >-terminated prefix' test is right for every XML spelling and partition (expat's behaviour on prefixes)."
 ASSUMPTIONS = ["latin-1 decoding is total and byte-wise", "StringIO.write appends when the stream is never repositioned (checked: no seek/read)"]
@@ -126,6 +126,10 @@ def rule_tags(ctx):
     B.check_tags(ctx, "C02.TAGS")
 
 
+def rule_aux(ctx):
+    B.check_aux(ctx, "C02.AUX")
+
+
 RULES = [
     ("C02.LOOP", rule_loop, "receive loops: read -> exactly one append(chunk) -> exactly one process(consumer); exit only on empty read"),
     ("C02.DECODE", rule_decode, "wire codec is a total single-byte codec"),
@@ -133,4 +137,5 @@ RULES = [
     ("C02.CONSUME", rule_consume, "exact-prefix consumption, once, before the consumer"),
     ("C02.DISCARD", rule_discard, "provenance of every other truncation (earliest tag / last '<' / empty / one char under threshold guard)"),
     ("C02.TAGS", rule_tags, "known tags computed from the parser's registry"),
+    ("C02.AUX", rule_aux, "no cached scan state, or it is re-initialised after every truncation of the buffer on every path"),
 ]
